@@ -87,13 +87,14 @@ Definition params_posb (p : params) : bool :=
    The guard of the partial theorem C19_cousins_partial (clause 4 is false in general: K1).
 
    Shapes only.  hR s: number of levels reached by the walk that starts at s and repeatedly moves
-   to the right-most child that itself has children (hL: left-most).  The guard asks that
-   (a) no node has more than two children, and
-   (b) for every node with two children [a; b]: the right-going walk from a reaches the deepest
+   to the right-most child that itself has children (hL: left-most).  The guard asks of every node
+   (a) that at most one of its children has children (then no two subtrees below it are ever
+       compared: any fan-out), or
+   (b) that it has exactly two children [a; b], the right-going walk from a reaches the deepest
        level of a, and the left-going walk from b reaches the deepest level of b.
    Under (b) the contour comparison of _get_subtree_shift really visits the facing extreme nodes
-   of the two subtrees at every common level; under (a) left_idx = 0 at every comparison, so the
-   accumulated shift is counted correctly (for left_idx >= 1 it is not: that is the K1 witness). *)
+   of the two subtrees at every common level, and left_idx = 0, so the accumulated shift is
+   counted correctly (for left_idx >= 1 it is not: that is the K1 witness). *)
 Inductive sk := Sk (l : list sk).
 Definition skids (s : sk) : list sk := match s with Sk l => l end.
 Fixpoint sk_of (t : tree) : sk := match t with T _ _ _ ks => Sk (map sk_of ks) end.
@@ -111,13 +112,15 @@ Fixpoint hR (s : sk) : nat :=
   | Sk l => S (fold_left (fun acc k => if sleaf k then Nat.max acc 1 else hR k) l 0%nat)
   end.
 
+Definition nonleaves (l : list sk) : nat := length (filter (fun k => negb (sleaf k)) l).
+
 Fixpoint cguard_sk (s : sk) : bool :=
   match s with
   | Sk l => forallb cguard_sk l
-            && match l with
-               | [] | [_] => true
-               | [a; b] => Nat.eqb (hR a) (sheight a) && Nat.eqb (hL b) (sheight b)
-               | _ => false
-               end
+            && (Nat.leb (nonleaves l) 1
+                || match l with
+                   | [a; b] => Nat.eqb (hR a) (sheight a) && Nat.eqb (hL b) (sheight b)
+                   | _ => false
+                   end)
   end.
 Definition cousin_guard (t : tree) : bool := cguard_sk (sk_of t).
